@@ -33,6 +33,8 @@ structure Cfg where
   didResumeFirst : Bool     -- vm.c janet_continue_no_check: janet_fiber_did_resume(fiber) precedes the `if (fiber->child)` block
                             --   (false: it runs only once the child chain has handed control back to this fiber)
   procErrCheck : Bool       -- janet_proc_wait_cb: the janet_cancel branch (non-zero status, :x flag) is guarded by the generation test too
+  threadCheck : Bool        -- janet_ev_threaded_await records the fiber's generation and janet_ev_default_threaded_callback
+                            --   (completion of os/shell, ev/thread, ev/do-thread) compares it before resuming the fiber
   resumeBumps : Bool        -- loop1 run phase: `task.fiber->sched_id++` between the stale filter and janet_continue_signal, so that
                             --   whatever the fiber registered before this resume (e.g. after cancelling itself) is stale afterwards
   deriving DecidableEq, Repr
@@ -40,9 +42,9 @@ structure Cfg where
 def Cfg.allChecked (c : Cfg) : Bool :=
   c.runFilter && c.timerCheck && c.pushSkipsStale && c.popSkipsStale && c.closeChecks && c.procCheck &&
   c.deadlineChecks && c.didResumeDetaches && c.scheduleBumps && c.canceledGuard && c.sleepRounds &&
-  c.hasReaderChecks && c.timeoutAfterValidation && c.didResumeFirst && c.procErrCheck && c.resumeBumps
+  c.hasReaderChecks && c.timeoutAfterValidation && c.didResumeFirst && c.procErrCheck && c.threadCheck && c.resumeBumps
 
-def Cfg.full : Cfg := ⟨true, true, true, true, true, true, true, true, true, true, true, true, true, true, true, true⟩
+def Cfg.full : Cfg := ⟨true, true, true, true, true, true, true, true, true, true, true, true, true, true, true, true, true⟩
 
 inductive Val where
   | nil
@@ -58,7 +60,7 @@ inductive Val where
 
 inductive Src where
   | spawn | self | chanRead (c : Nat) | chanWrite (c : Nat) | chanClose (c : Nat)
-  | sleep (start durUs : Nat) | timeout | deadline | cancel | stream (s : Nat) | proc (k : Nat)
+  | sleep (start durUs : Nat) | timeout | deadline | cancel | stream (s : Nat) | proc (k : Nat) | thread (k : Nat)
   deriving DecidableEq, Repr, Inhabited
 
 structure Task where
@@ -133,6 +135,8 @@ structure World where
   procs : Nat → Option (Nat × Nat) := fun _ => none     -- proc k is waited on by (fiber, sched_id)
   procX : Nat → Bool := fun _ => false                  -- proc k was spawned with :x (JANET_PROC_ERROR_NONZERO)
   procEpoch : Nat → Nat := fun _ => 0                   -- ghost: epoch of the waiting fiber when it called os/proc-wait
+  thr : Nat → Option (Nat × Nat) := fun _ => none       -- threaded call k (os/shell, ev/thread) is awaited by (fiber, sched_id)
+  thrEpoch : Nat → Nat := fun _ => 0                    -- ghost
   bodies : Nat → Bool := fun _ => false                 -- body b (a with-deadline coroutine) is resumable
   bodyDead : Nat → Bool := fun _ => false               -- ghost: body b has finished (dead / error status)
   timers : List Timer := []                             -- kept sorted by `when` (stable): abstraction of the heap
@@ -294,6 +298,18 @@ def procExit (cfg : Cfg) (w : World) (k status : Nat) : World :=
           (if !cfg.procCheck || live w f g then schedule cfg w1 f (.int status) false g w.now (.proc k) (w.procEpoch k) else w1)
       else w1
 
+/-- janet_ev_threaded_await (os/shell, ev/thread, ev/do-thread): the message carries (fiber, generation) -/
+def thrWait (w : World) (f k : Nat) : World :=
+  { w with thr := set w.thr k (some (f, (w.fibers f).schedId)), thrEpoch := set w.thrEpoch k (w.fibers f).epoch }
+
+/-- janet_ev_default_threaded_callback: the worker thread's result `v` (error tags: `isErr`) arrives through the self pipe -/
+def thrDone (cfg : Cfg) (w : World) (k : Nat) (v : Val) (isErr : Bool) : World :=
+  match w.thr k with
+  | none => w
+  | some (f, g) =>
+      let w1 := { w with thr := set w.thr k none }
+      if !(w.fibers f).dead && (!cfg.threadCheck || live w f g) then schedule cfg w1 f v isErr g w.now (.thread k) (w.thrEpoch k) else w1
+
 /-- run phase of janet_loop1 for one task: clear flags, stale filter, janet_fiber_did_resume, log. -/
 def runTask (cfg : Cfg) (w : World) : World :=
   match w.queue with
@@ -330,6 +346,8 @@ inductive Op where
   | procWait (f k : Nat)
   | procExit (k status : Nat)
   | procFlag (k : Nat) (x : Bool)
+  | thrWait (f k : Nat)
+  | thrDone (k : Nat) (v : Val) (isErr : Bool)
   | childEnter (f : Nat)
   | childLeave (f : Nat)
   | advance (dt : Nat)
@@ -360,6 +378,8 @@ def step (cfg : Cfg) (w : World) : Op → World
   | .procWait f k => procWait w f k
   | .procExit k st => procExit cfg w k st
   | .procFlag k x => { w with procX := set w.procX k x }
+  | .thrWait f k => thrWait w f k
+  | .thrDone k v e => thrDone cfg w k v e
   -- the root fiber `f` starts / finishes a child fiber that encloses several of its waits
   | .childEnter f => { w with fibers := set w.fibers f { w.fibers f with depth := (w.fibers f).depth + 1 } }
   | .childLeave f =>
